@@ -537,6 +537,8 @@ def gen_C09(rng, tier):
         ps = sorted(ps)
         edges = sorted(set([dvals[0] - 1] + dvals + [dvals[-1] + 1] + [dvals[0] + F(1, 2)]))
         bins = list(zip(edges, edges[1:]))
+        if len(bins) > 2 and rng.random() < 0.35:       # an IntervalIndex need not be contiguous: bins with gaps between them
+            del bins[rng.randrange(1, len(bins) - 1)]
         hstat = rng.choice(["sum", "frequency", "density", "probability"])
         if hstat in ("frequency", "density"):
             pow2 = False      # quotients by bin widths are not exact: tolerant comparison
@@ -571,9 +573,10 @@ def gen_C10(rng, tier):
         prog = [leaf_stmt(0, f, c)]
         if rng.random() < 0.35:
             warmup(rng, prog, 0, pts)
+        wpts = pts if rng.random() < 0.6 else leaf_points(f)      # window ends on step points, or also between / beyond them
         for _ in range(rng.randint(2, 5)):
-            lo = rng.choice([None] + pts)
-            hi = rng.choice([None] + [p for p in pts if lo is None or p > lo])      # a window has lower < upper
+            lo = rng.choice([None] + wpts)
+            hi = rng.choice([None] + [p for p in wpts if lo is None or p > lo])      # a window has lower < upper
             cl = rng.choice(IVC + [None])
             kind = rng.choice(["vir", "min", "max", "aggmin", "aggmax"])
             if kind in ("vir", "min", "max"):
@@ -899,7 +902,7 @@ def warmup(rng, prog, r, pts, inplace=True, scratch=60, qset=EXACT_WARM):
             for name in rng.sample(qset, rng.randint(1, 3)):
                 prog.append(stat_query(rng, r, name))
         elif k == "use":
-            u = rng.choice(["cliphi", "cliphi", "cliplo", "clip", "maskt", "fill0", "neg", "addc", "isna", "copy", "slicer", "bfill"])
+            u = rng.choice(["cliphi", "cliphi", "cliplo", "clip", "maskt", "fill0", "neg", "addc", "isna", "copy", "slicer", "bfill", "ffill", "ffill"])
             a, b = rng.choice(pts), rng.choice(grid)
             if u == "cliphi":
                 prog.append(C.clip(scratch, r, None, a))
@@ -916,7 +919,7 @@ def warmup(rng, prog, r, pts, inplace=True, scratch=60, qset=EXACT_WARM):
             elif u == "slicer" and a < b:
                 prog.append(C.query(r, "slicer", stat=rng.choice(["mean", "max", "integral"] if qset is TOL_WARM else ["min", "max", "integral"]), icl=rng.choice(IVC), ivs=[(a, b)]))
                 continue
-            elif u in ("neg", "isna", "copy", "bfill"):
+            elif u in ("neg", "isna", "copy", "bfill", "ffill"):
                 prog.append(C.un(scratch, u, r))
             else:
                 continue
@@ -1141,6 +1144,23 @@ def gen_C11(rng, tier):
         fl["cuts"] = rng.choice(["index", "breaks"])
         fl["slicecall"] = rng.choice(["direct", "agg", "apply"])
         cases.append(mk(f"C11/{tag}/{k}", prog, fl, mode="tol", tags=[tag]))
+    # PeriodIndex slicing on a naive datetime domain: hourly periods (unit intervals at integer points), consecutive or with
+    # gaps, in any order
+    for k in range(n // 6):
+        f = rand_leaf(rng, maxn=5, grid=2, span=6)
+        c = rng.choice(SIDES)
+        starts = rng.sample(range(-1, 7), rng.randint(1, 4))
+        if rng.random() < 0.5:
+            starts.sort()
+        ivs = [(F(a), F(a + 1)) for a in starts]
+        prog = [leaf_stmt(0, f, c)]
+        for st in rng.sample(["mean", "integral", "mode", "min", "max"], 3):
+            prog.append(C.query(0, "slicer", stat=st, icl=rng.choice(IVC), ivs=ivs))
+        fl = flav(rng, has_nan(f))
+        fl["dom"] = "dt"
+        fl["cuts"] = "period"
+        fl["slicecall"] = rng.choice(["direct", "agg", "apply"])
+        cases.append(mk(f"C11/period/{k}", prog, fl, mode="tol", tags=["period", "dt"]))
     return cases
 
 
